@@ -16,4 +16,28 @@ def buildCore (ext : Ext) {D Out : Type} (deserializerNew : List Field → List 
   deserializerNew := deserializerNew
   deserialize := deserialize
 
+/-- one addition to an `ArrayBuilder` (`internal/array_builder.rs`, `internal/serializer.rs`) -/
+inductive Add where
+  /-- `ArrayBuilder::push(&record)` -/
+  | push (x : SVal)
+  /-- `ArrayBuilder::extend(&records)` -/
+  | extend (x : SVal)
+  /-- `records.serialize(Serializer::new(&mut builder))` -/
+  | viaSerializer (x : SVal)
+
+def addTo (ext : Ext) (root : B) : Add → R B
+  | .push x => push ext root x
+  | .extend x => extend ext root x
+  | .viaSerializer x => serializeWith ext root x
+
+/-- the builder model as the core of HISTORIES on one builder (`Backend/History.lean`): an item of a history is one
+`push` / `extend` / `Serializer` call, exactly the operations `Props/C10.lean` runs -/
+def histCore (ext : Ext) {D Out : Type} (deserializerNew : List Field → List Arr → R D) (deserialize : D → R Out) :
+    Core B Add D Out where
+  newOuter := newRoot
+  serialize := addTo ext
+  takeArrays := buildArrays ext
+  deserializerNew := deserializerNew
+  deserialize := deserialize
+
 end SaModel.Backend
